@@ -1,10 +1,10 @@
 package main
 
 import (
-	"os"
 	"bufio"
 	"fmt"
 	"io"
+	"os"
 	"os/exec"
 	"sort"
 	"strings"
@@ -15,32 +15,32 @@ import (
 // before the push that needs them. Any "(error" line makes the query inconclusive (result "error").
 
 type Solver struct {
-	kind     string // z3 | z3-new | cvc5
-	cmd      *exec.Cmd
-	in       io.WriteCloser
-	out      *bufio.Reader
-	declared map[string]bool // symbols / funs / sorts / literals / instance-axiom keys
-	seenTerm map[*Term]bool
-	nlits    int
-	timeout  int // ms per query
-	Queries  int
-	Sat      int
-	Unsat    int
-	Unknown  int
-	Errors   int
-	Seconds  float64
-	log      io.Writer
-	pending  []string // axioms to assert at base level
-	lastQuery string
-	keepHist  bool
-	hist      []string
-	slowN     int
-	base      []string
+	kind          string // z3 | z3-new | cvc5
+	cmd           *exec.Cmd
+	in            io.WriteCloser
+	out           *bufio.Reader
+	declared      map[string]bool // symbols / funs / sorts / literals / instance-axiom keys
+	seenTerm      map[*Term]bool
+	nlits         int
+	timeout       int // ms per query
+	Queries       int
+	Sat           int
+	Unsat         int
+	Unknown       int
+	Errors        int
+	Seconds       float64
+	log           io.Writer
+	pending       []string // axioms to assert at base level
+	lastQuery     string
+	keepHist      bool
+	hist          []string
+	slowN         int
+	base          []string
 	branchTimeout int
-	depth     int
-	replaying bool
-	Retries   int
-	RetryWins int
+	depth         int
+	replaying     bool
+	Retries       int
+	RetryWins     int
 }
 
 var builtinOps = map[string]bool{
